@@ -314,6 +314,11 @@ class PDFContentParser(PSStackParser[Union[PSKeyword, PDFStream]]):
                     and c == (bytes((target[i],)))
                 ):
                     i += 1
+                elif i == len(target) and target != b"EI":
+                    # The ASCII85 EOD marker "~>" need not be followed by
+                    # white space ("~>EI"): give the byte back to the parser.
+                    self.charpos -= 1
+                    i += 1
                 else:
                     i = 0
             else:
